@@ -1005,6 +1005,13 @@ def main(chk: Check):
              "if_missing/ignore_missing, permuted children), 10% identical calls, 10% unrelated; every pair is "
              "asked ==, hash== and match on the 20-string / 12-set / 16-(iuse,use) / 24-package universe; "
              "non-trivial = the two objects are distinct objects built by different constructor calls")
+    import time as _t
+    _T = [_t.time()]
+
+    def lap(what):
+        _T.append(_t.time())
+        chk.cov.setdefault("phase_s", {})[what] = round(_T[-1] - _T[-2], 1)
+
     tbl_ok = True
     try:
         tables.regenerate(sys.modules[__name__])
@@ -1013,6 +1020,7 @@ def main(chk: Check):
         chk.violation("table", {"what": "an __attr_comparison__ tuple or a hashed tuple of the restriction classes "
                                         "is no longer a literal the extractor recognises", "error": str(e)}, True)
     ok = chk.build(["C07/Prop_C07.vo"])
+    lap("tables+make (incl. waiting for the shared build lock)")
     if ok:
         chk.check_assumptions("C07/Prop_C07.v")
         model_ok = True
@@ -1024,14 +1032,7 @@ def main(chk: Check):
     chk.lint(["C07"])
     chk.check_fingerprint(ANCHORS)
 
-    import time as _t
-    _T = [_t.time()]
-
-    def lap(what):
-        _T.append(_t.time())
-        chk.cov.setdefault("phase_s", {})[what] = round(_T[-1] - _T[-2], 1)
-
-    lap("build+assumptions+lint")
+    lap("assumptions+lint+fingerprint")
     keyed = probe_cfg()
     ccfg = "{| udc_keyed := %s |}" % cbool(keyed)
     chk.note(f"_UseDepDefaultContainment identity includes if_missing: {keyed}")
